@@ -277,6 +277,20 @@ class C17(core.Check):
                                   got=core.short(got_p["doc"])))
         except Exception as e:
             sites.append(site(False, dict(facts, op="interp"), fail="raise", **core.exc_obs(e)))
+        # --- the writer applied to text that already announces the default: idempotent with default text on,
+        #     and the way emitters strip the sentence with default text off
+        try:
+            par2 = {"doc": text, "default": v}
+            if t:
+                par2["typ"] = t
+            _, q2 = set_default_doc(("a", dict(par2)), emit_default_doc=not rm)
+            if rm:
+                sites.append(site(wsn(q2["doc"]) in accepted_prose, dict(facts, op="rewrite.remove"), fail="prose", got=core.short(q2["doc"])))
+            else:
+                sites.append(site(q2["doc"] == text, dict(facts, op="rewrite.keep"), fail="sentence_written_twice_or_changed",
+                                  got=core.short(q2["doc"])))
+        except Exception as e:
+            sites.append(site(False, dict(facts, op="rewrite"), fail="raise", **core.exc_obs(e)))
         return sites, [text, rm], [text, rm, [s["ok"] for s in sites]]
 
 
